@@ -15,7 +15,9 @@ CONSTANTS Cap,        \* capacity of each pipe, in chunks
           Plans,      \* child plans to explore
           Tolerant
 
-AllPlans == { "absent", "ok", "fail_after_read", "fail_no_read", "killed", "empty", "garbage_no_read", "stream" }
+AllPlans == { "absent", "ok", "fail_after_read", "fail_no_read", "killed", "empty", "garbage_no_read", "garbage_after_read", "stream" }
+(* "garbage_after_read": reads everything, exits successfully and prints a full-size text that is NOT the program (tokens permuted, a   *)
+(* blank inserted inside a string literal, a token prefix, the program twice): only a comparison of the tokens can tell                *)
 (* "garbage_no_read": exits successfully before reading its input but prints something - which cannot be the program *)
 (* "stream" (writes output while still reading input) is NOT among the faults C19 lists; it is  *)
 (* modelled so that its deadlock is a named, known behaviour rather than a surprise.            *)
@@ -102,7 +104,8 @@ CStart ==
      ELSE cpc' = "read" /\ GU /\ UNCHANGED << inPipe, inR, outPipe, outW, childRead, childOut, status >>
 (* read one chunk; at EOF (pipe empty and write end closed) go on according to the plan *)
 CRead ==
-  /\ cpc = "read" /\ CU /\ GU
+  /\ cpc = "read" /\ CU
+  /\ garbage' = (garbage \/ (plan = "garbage_after_read" /\ inPipe = 0 /\ ~inW))
   /\ \/ /\ inPipe > 0 /\ inPipe' = inPipe - 1 /\ childRead' = childRead + 1
         /\ IF plan = "stream" THEN childOut' = childOut + 1 /\ cpc' = "emit" ELSE UNCHANGED << childOut, cpc >>
         /\ UNCHANGED << inR, outPipe, outW, status >>
